@@ -57,7 +57,7 @@ static void op_mpf(int argc, char **argv)
   else if (ISF("set_q")) { mpq_t q; mpz_t n, d; parse_z(t[0], n); parse_z(t[1], d); mpq_init(q); mpz_set(mpq_numref(q), n); mpz_set(mpq_denref(q), d);
                            mpf_set_q(r, q); f_out(r); mpq_clear(q); mpz_clear(n); mpz_clear(d); }
   else if (ISF("set_str")) { /* set_str base x:bytes : return value then the value */
-    int base = (int)arg_l(t[0]); static char sb[1 << 16]; const char *h = t[1] + 2; size_t n = 0;
+    int base = (int)arg_l(t[0]); static __thread char sb[1 << 16]; const char *h = t[1] + 2; size_t n = 0;
     while (h[0] && h[1] && n + 1 < sizeof sb) { unsigned v; sscanf(h, "%2x", &v); sb[n++] = (char)v; h += 2; } sb[n] = 0;
     int rc = mpf_set_str(r, sb, base); outl(rc); f_out(r); }
   else outs("UNKNOWN-FN");
